@@ -578,3 +578,20 @@ func (z *ZKServer) ownerName(id int64) string {
 	}
 	return fmt.Sprint(id)
 }
+
+// NodeVersion returns the data version of a znode (-1 if absent).
+func (z *ZKServer) NodeVersion(path string) int32 {
+	if n := z.Nodes[path]; n != nil {
+		return n.Version
+	}
+	return -1
+}
+
+// SetPid overrides the pid of a virtual process (pid reuse scenarios).
+func (w *World) SetPid(proc string, pid int) {
+	w.mu.Lock()
+	if p := w.Procs[proc]; p != nil {
+		p.Pid = pid
+	}
+	w.mu.Unlock()
+}
